@@ -175,7 +175,10 @@ BAD_KEYS = {
 }
 FIXED_SLOT_NAMES = ["main", "aux", "extra"]
 SECTION_NAMES = ["n1", "n2", "N3", "main", "aux", "alpha", "zz",
-                 "Straße", "ΣΊΣΥΦΟΣ", "Maſt", "ÉCOLE"]
+                 "Straße", "ΣΊΣΥΦΟΣ", "Maſt", "ÉCOLE",
+                 # names may end in (or consist of) slashes: '<t dir//>' is
+                 # the empty form of a section named 'dir/'
+                 "dir/", "/Srv/www/", "//"]
 HANDLERS = ["h1", "h2", "H3", "h-4"]
 
 
